@@ -21,6 +21,7 @@ RULE = ('generated specs (every primitive, List/Map/Nullable nesting, inheritanc
         'field, tag, route object exactly once; client functions once per request variant) and every '
         'namespace-qualified user-type name in code must be declared. distinct = distinct (backend, '
         'declaration kind, type shape) cells')
+RULE += ' ' + 'Client checks: swift_client functions with their parameter labels and route object; obj_c_client methods parsed from .h and .m (multiset of selectors per auth type, style variant and required-only/full overload, route object named in each body).'
 ASSUMPTIONS = ['no Swift or Objective-C compiler with Foundation is available: lexical and declarative checking only',
                'by the backends\' design deprecated routes are absent from the Objective-C compatibility clients '
                'and app-only routes from non-app clients; those are not counted as missing']
